@@ -178,6 +178,18 @@ def run(chk):
             model = "nosv" if kind == 2 else "nanos6"
             s = gen_hist.base_scenario(r, tables, models=["ovni", model])
             gen_hist.task_history(r, s, tables, model, build, wrong_num=0)
+        if kind in (0, 1) and r.chance(1, 2):
+            # MPI ranks in a cyclic placement over the looms, the process with the lowest pid of the first loom not
+            # holding its lowest rank: looms are ordered by their lowest rank, processes of a loom by rank
+            lo = sorted(set(t["loom"] for t in s.threads))
+            procs = {l: sorted(set(t["pid"] for t in s.threads if t["loom"] == l), key=lambda p_: "proc.%d" % p_) for l in lo}
+            npmax = max(len(v) for v in procs.values())
+            for t in s.threads:
+                li = lo.index(t["loom"])
+                mine = procs[t["loom"]]
+                j = mine.index(t["pid"])
+                t["rank"] = ((len(mine) - 1 - j) if li == 0 else j) * len(lo) + li
+                t["nranks"] = len(lo) * npmax
         scs.append(s)
     real = emucore.run_real(build, scs, keep_files=True)
     mod = emucore.run_oracle(oracle, scs) if oracle else [None] * len(scs)
